@@ -229,25 +229,34 @@ impl AsCborValue for Header {
 
     fn to_cbor_value(mut self) -> Result<Value> {
         let mut map = Vec::<(Value, Value)>::new();
+        // Labels already emitted for populated fields: an extra parameter must not repeat them.
+        let mut seen = BTreeSet::new();
         if let Some(alg) = self.alg {
+            seen.insert(ALG);
             map.push((ALG.to_cbor_value()?, alg.to_cbor_value()?));
         }
         if !self.crit.is_empty() {
+            seen.insert(CRIT);
             map.push((CRIT.to_cbor_value()?, to_cbor_array(self.crit)?));
         }
         if let Some(content_type) = self.content_type {
+            seen.insert(CONTENT_TYPE);
             map.push((CONTENT_TYPE.to_cbor_value()?, content_type.to_cbor_value()?));
         }
         if !self.key_id.is_empty() {
+            seen.insert(KID);
             map.push((KID.to_cbor_value()?, Value::Bytes(self.key_id)));
         }
         if !self.iv.is_empty() {
+            seen.insert(IV);
             map.push((IV.to_cbor_value()?, Value::Bytes(self.iv)));
         }
         if !self.partial_iv.is_empty() {
+            seen.insert(PARTIAL_IV);
             map.push((PARTIAL_IV.to_cbor_value()?, Value::Bytes(self.partial_iv)));
         }
         if !self.counter_signatures.is_empty() {
+            seen.insert(COUNTER_SIG);
             if self.counter_signatures.len() == 1 {
                 // A single counter signature is encoded differently.
                 map.push((
@@ -261,7 +270,6 @@ impl AsCborValue for Header {
                 ));
             }
         }
-        let mut seen = BTreeSet::new();
         for (label, value) in self.rest.into_iter() {
             if seen.contains(&label) {
                 return Err(CoseError::DuplicateMapKey);
